@@ -54,6 +54,10 @@ CHECKS = {
    text="Metamorphic determinism check: every generated document (up to 4 nested invoked machines with ids) is transpiled by all three back-ends in three fresh processes of the un-sanitized build (ASLR on with cold cache, ASLR on with warm cache, ASLR off + malloc perturbation + padded environment) and interpreted twice; outputs must be byte-identical, traces identical.",
    note="Trusted: process-level variation actually moves pointer-derived artefacts (it did for the defect found). A particular layout cannot be forced. USCXML_CURRENT_MACHINE_INDEX is treated as input (fresh process per transformation).",
    technique="metamorphic property-based testing across process instances (Hypothesis)"),
+ 'C06': dict(category='translation_validation', design_ref='DESIGN.md §4 C06',
+   text="Translation validation per generated program: each generated chart (promela datamodel; events produced by the chart's own <send>s) is emitted by ChartToPromela and the emitted model is executed by spin in simulation mode under three spin seeds (which must agree); its TRACE_EXECUTION output, mapped back through the emitted #defines and the annotated document, is compared with the interpreter's trace of the same document (states exited/entered, transitions taken, events dequeued, log values).",
+   note="Trusted: spin's simulator, the trace parser, the mapping through #defines. spin is used as an executor only, never as a verifier. Never-stabilising charts (bounded channels) and charts without transitions are skipped and counted; differences explained by the transpilers' conflict relation are attributed to F-C06-1. No nested machines / delays.",
+   technique="differential property-based testing of emitted Promela (spin simulation) vs interpreter (Hypothesis)"),
 }
 NOT_YET = "check not implemented yet in this session (see DESIGN.md §11 for the plan)"
 
